@@ -114,6 +114,11 @@ def replay_case(arg):
                 fail('Solution', 'shape', dict(ctx, got=list(out.shape), expected=list(exp_out.shape)))
             elif not interp.close(out, exp_out, rtol=1e-6, atol=1e-8):
                 fail('Solution', 'outputs', dict(ctx, got=out.tolist(), expected=exp_out.tolist()))
+        # ---- the same file behind an absorption compartment (SBMLOrder!PublishedAdmin) -----------------------
+        # set_administration(direct=False) adds a state and a constant that sort to the FRONT of their groups; the
+        # published order, the hand-over of values and the selection of sensitivities by name must follow.
+        if not fails:
+            admin_variant(rec, path, rng, fail, cnt)
     except Exception as e:
         fail('Evaluable', type(e).__name__, repr(e))
     finally:
@@ -122,3 +127,50 @@ def replay_case(arg):
         except OSError:
             pass
     return fails, cnt
+
+
+def admin_variant(rec, path, rng, fail, cnt):
+    ns, nc = rec['ns'], rec['nc']
+    target = int(rng.integers(1, ns + 1))
+    model = chi.PKPDModel(path)
+    model.set_administration('global', amount_var=sbmlgen.sname(target), direct=False)
+    pub = ['dose.drug_amount'] + ['global.' + sbmlgen.sname(r) for r in range(1, ns + 1)] + \
+          ['dose.absorption_rate'] + ['global.' + sbmlgen.cname(k) for k in range(1, nc + 1)]
+    if list(model.parameters()) != pub or model.n_parameters() != len(pub):
+        fail('Published', 'parameters_after_administration', dict(got=model.parameters(), expected=pub))
+        return
+    onames = ['global.yq' if o == 0 else 'global.' + sbmlgen.sname(o) for o in rec['outs']]
+    model.set_outputs(onames)
+    n = len(pub)
+    values = np.concatenate([[0.9], 1.0 + 0.5 * np.arange(1, ns + 1) + np.round(rng.uniform(0, 0.2, ns), 3),
+                             [0.7], 0.2 + 0.15 * np.arange(1, nc + 1) + np.round(rng.uniform(0, 0.05, nc), 3)])
+    times = np.array([0.4, 1.1, 2.5])
+    # a seeded proper subset of the parameters (and, every other time, all of them)
+    subset = sorted(int(q) for q in rng.choice(np.arange(1, n + 1), size=int(rng.integers(1, n)), replace=False))
+    cnt['admin_variants'] = cnt.get('admin_variants', 0) + 1
+    for route in ('select', 'reduced'):
+        with warnings.catch_warnings():
+            warnings.simplefilter('error', RuntimeWarning)
+            if route == 'select':
+                # sensitivities requested by name on the model itself
+                model.enable_sensitivities(True, [pub[q - 1] for q in subset])
+                out, sens = model.simulate(values.copy(), times.copy())
+            else:
+                red = chi.ReducedMechanisticModel(model)
+                fixed = [q for q in range(1, n + 1) if q not in subset]
+                red.fix_parameters({pub[q - 1]: float(values[q - 1]) for q in fixed})
+                if list(red.parameters()) != [pub[q - 1] for q in subset]:
+                    fail('Published', 'free_parameters_after_administration', dict(got=red.parameters()))
+                    return
+                red.enable_sensitivities(True)
+                out, sens = red.simulate(values[np.array(subset) - 1].copy(), times.copy())
+        cnt['evaluations'] = cnt.get('evaluations', 0) + 1
+        exp_out, exp_sens = sbmlgen.chain_reference_admin(ns, nc, values, times, rec['outs'], subset, target)
+        out, sens = np.asarray(out, dtype=float), np.asarray(sens, dtype=float)
+        ctx = dict(route=route, subset=[pub[q - 1] for q in subset], target=sbmlgen.sname(target))
+        if out.shape != exp_out.shape or not interp.close(out, exp_out, rtol=1e-6, atol=1e-8):
+            fail('Solution', 'outputs_after_administration', dict(ctx, got=out.tolist(), expected=exp_out.tolist()))
+        if sens.shape != exp_sens.shape:
+            fail('SensRequestOK', 'shape_after_administration', dict(ctx, got=list(sens.shape), expected=list(exp_sens.shape)))
+        elif not interp.close(sens, exp_sens, rtol=1e-6, atol=1e-7):
+            fail('Solution', 'sensitivities_after_administration', dict(ctx, got=sens.tolist(), expected=exp_sens.tolist()))
